@@ -242,8 +242,154 @@ func c11Value(kind, row, col int) driver.Value {
 	}
 }
 
+// destinations with embedded structs: mapped by position over the flattened field list
+type C11Inner struct {
+	Value string
+	Score int64
+}
+
+type c11Outer struct {
+	Name string
+	Age  int64
+	C11Inner
+}
+
+type c11OuterPtr struct {
+	Name string
+	*C11Inner
+	Age int64
+}
+
+func c11Embedded(r *zsim.Run) {
+	o := r.Ops
+	ptr := o.Intn(2) == 1
+	ncols := 1 + o.Intn(4) // flattened field count is 4
+	strict := o.Intn(2) == 0
+	many := o.Intn(2) == 0
+	nrows := zsim.Pick(o, 1, 2, 0)
+	// flattened order
+	kinds := []int{1, 0, 1, 0} // Name, Age, Value, Score
+	if ptr {
+		kinds = []int{1, 1, 0, 0} // Name, Value, Score, Age
+	}
+	cols := []string{"c0", "c1", "c2", "c3"}[:ncols]
+	data := make([][]driver.Value, nrows)
+	for row := range data {
+		for c := 0; c < ncols; c++ {
+			data[row] = append(data[row], c11Value(kinds[c], row, c))
+		}
+	}
+	r.Logf("embedded: ptr=%v ncols=%d strict=%v many=%v nrows=%d", ptr, ncols, strict, many, nrows)
+	r.NonTrivial()
+	fdb, db := zsql.New()
+	defer db.Close()
+	fdb.Rows = func(string, []driver.NamedValue) ([]string, [][]driver.Value, error) { return cols, data, nil }
+	conn := NewConnFromDB(db)
+	flat := func(v any) []any {
+		switch x := v.(type) {
+		case c11Outer:
+			return []any{x.Name, x.Age, x.Value, x.Score}
+		case c11OuterPtr:
+			if x.C11Inner == nil {
+				return []any{x.Name, "", int64(0), x.Age}
+			}
+			return []any{x.Name, x.Value, x.Score, x.Age}
+		}
+		return nil
+	}
+	var err error
+	var got [][]any
+	var panicked any
+	func() {
+		defer func() { panicked = recover() }()
+		switch {
+		case many && !ptr:
+			var d []c11Outer
+			if strict {
+				err = conn.QueryRows(&d, "q")
+			} else {
+				err = conn.QueryRowsPartial(&d, "q")
+			}
+			for _, x := range d {
+				got = append(got, flat(x))
+			}
+		case many:
+			var d []*c11OuterPtr
+			if strict {
+				err = conn.QueryRows(&d, "q")
+			} else {
+				err = conn.QueryRowsPartial(&d, "q")
+			}
+			for _, x := range d {
+				got = append(got, flat(*x))
+			}
+		case !ptr:
+			var d c11Outer
+			if strict {
+				err = conn.QueryRow(&d, "q")
+			} else {
+				err = conn.QueryRowPartial(&d, "q")
+			}
+			got = append(got, flat(d))
+		default:
+			var d c11OuterPtr
+			if strict {
+				err = conn.QueryRow(&d, "q")
+			} else {
+				err = conn.QueryRowPartial(&d, "q")
+			}
+			got = append(got, flat(d))
+		}
+	}()
+	r.Logf("result err=%v panic=%v rows=%v", err, panicked, got)
+	if panicked != nil {
+		r.Failf("row-mapping-panic", "query mapping panicked: %v", panicked)
+		return
+	}
+	if !many && nrows == 0 {
+		if !errors.Is(err, ErrNotFound) {
+			r.Failf("empty-result-not-reported", "single-row query on an empty result returned %v, want ErrNotFound", err)
+		}
+		return
+	}
+	if strict && ncols < 4 && nrows > 0 {
+		if !errors.Is(err, ErrNotMatchDestination) {
+			r.Failf("strict-missing-column-accepted", "strict mode: %d columns for a destination with 4 fields (two of them in an embedded struct): want ErrNotMatchDestination, got %v with %v", ncols, err, got)
+		}
+		return
+	}
+	if err != nil {
+		r.Failf("row-mapping-error", "unexpected error %v", err)
+		return
+	}
+	if many && len(got) != nrows {
+		r.Failf("wrong-row-count", "QueryRows returned %d rows, want %d", len(got), nrows)
+		return
+	}
+	for row := 0; row < nrows && row < len(got); row++ {
+		for c := 0; c < 4; c++ {
+			var want any
+			if c < ncols {
+				want = c11Value(kinds[c], row, c)
+			} else if kinds[c] == 1 {
+				want = ""
+			} else {
+				want = int64(0)
+			}
+			if got[row][c] != want {
+				r.Failf("wrong-field-value", "embedded destination row %d position %d: got %v, want %v", row, c, got[row][c], want)
+				return
+			}
+		}
+	}
+}
+
 func c11Rows(r *zsim.Run) {
 	o := r.Ops
+	if o.Intn(4) == 3 {
+		c11Embedded(r)
+		return
+	}
 	nf := 1 + o.Intn(5)
 	tagged := o.Intn(4) != 0
 	fields := make([]c11Field, nf)
